@@ -348,7 +348,11 @@ def archive_dir(src: pathlib.Path, dest: pathlib.Path,
         dest: path pointing to a zip file
     """
     src = src.resolve()
-    for d, _, files in os.walk(src):
+
+    def fail(error):    # os.walk skips a directory it cannot list
+        raise error
+
+    for d, _, files in os.walk(src, onerror=fail):
         for f in files:
             srcfile = pathlib.Path(os.path.join(d, f))
             rel = srcfile.relative_to(src)
